@@ -4523,11 +4523,23 @@ class ParameterizedMetaclass(type):
 
         if parameter and not isinstance(value,Parameter):
             if owning_class != mcs:
+                inherited = parameter
                 parameter = copy.copy(parameter)
                 parameter.owner = mcs
                 type.__setattr__(mcs,attribute_name,parameter)
                 for kls in descendents(mcs):
                     kls._param__private.params.clear()
+                try:
+                    parameter.__set__(None,value)
+                except Exception:
+                    if parameter.default is inherited.default:
+                        # The value was rejected, nothing was stored: the
+                        # class goes on inheriting the Parameter
+                        type.__delattr__(mcs,attribute_name)
+                        for kls in descendents(mcs):
+                            kls._param__private.params.clear()
+                    raise
+                return
             mcs.__dict__[attribute_name].__set__(None,value)
 
         else:
